@@ -230,7 +230,7 @@ func (fr *Frame) exec(ins ssa.Instruction) bool {
 			v.typ = r.Type()
 			rs = append(rs, v)
 		}
-		fr.rets = append(fr.rets, &retRec{reach: fr.reach, results: rs, st: fr.st})
+		fr.rets = append(fr.rets, &retRec{reach: fr.reach, results: rs, st: fr.st, blk: n.Block()})
 		return true
 	case *ssa.Panic:
 		fr.safety("panic", n.Pos(), b.False())
@@ -380,6 +380,9 @@ func (fr *Frame) binop(n *ssa.BinOp) Val {
 			true:  {token.QUO: "bvsdiv", token.REM: "bvsrem"},
 			false: {token.QUO: "bvudiv", token.REM: "bvurem"},
 		}[signed][n.Op]
+		if !signed {
+			return res(fr.cx.udivrem(n.Op == token.REM, x.t, y.t))
+		}
 		return res(b.BVOp(op, x.t, y.t))
 	case token.AND:
 		return res(b.BVOp("bvand", x.t, y.t))
